@@ -143,3 +143,178 @@ Proof.
   rewrite forallb_forall in Hall. specialize (Hall _ Hin). cbn in Hall. rewrite Hp in Hall.
   apply Z.ltb_lt. exact Hall.
 Qed.
+
+(* ---- the run, evaluated once -------------------------------------------------------------------- *)
+
+Notation k10_run := (run sha256 record_hash node_hash_sha k10_V esc_path_i esc_vers_i (fun _ => false) k10_steps k10_w k10_cs).
+Notation k10_rf := (run_full sha256 record_hash node_hash_sha k10_V esc_path_i esc_vers_i (fun _ => false) k10_steps k10_w k10_cs).
+
+Definition k10_obs (rf : (list lres * list event * world * clients) * list (lres * Z * Z)) :=
+  let r := fst rf in
+  let c0 := snd r 0%nat in
+  (fst (fst (fst r)),                                  (* the results *)
+   snd rf,                                              (* the log *)
+   c_init c0, c_latest c0, c_latest_msg c0,             (* client 0 at the end *)
+   cfg_msg k10_name (snd (fst r)),                      (* the stored head at the end *)
+   w_interf (snd (fst r)),
+   (* TreeHash(5) recomputed from the authenticated tiles of client 0's head *)
+   fst (tree_hash_st node_hash_sha (c_latest c0) 5 (mkState (snd (fst r)) c0 []))).
+
+Definition k10_nf := Eval vm_compute in k10_obs k10_rf.
+Lemma k10_obs_eq : k10_obs k10_rf = k10_nf.
+Proof. vm_cast_no_check (eq_refl k10_nf). Qed.
+
+Definition k10_rs : list lres := Eval vm_compute in match k10_nf with (rs, _, _, _, _, _, _, _) => rs end.
+Definition k10_log : list (lres * Z * Z) := Eval vm_compute in match k10_nf with (_, lg, _, _, _, _, _, _) => lg end.
+Definition k10_A : tree := Eval vm_compute in match k10_nf with (_, _, _, a, _, _, _, _) => a end.
+Definition k10_Amsg : str := Eval vm_compute in match k10_nf with (_, _, _, _, m, _, _, _) => m end.
+Definition k10_Bmsg : str := Eval vm_compute in match k10_nf with (_, _, _, _, _, Some m, _, _) => m | _ => [] end.
+Definition k10_h5 : hash := Eval vm_compute in match k10_nf with (_, _, _, _, _, _, _, TOk h) => h | _ => [] end.
+Definition k10_B : tree :=
+  Eval vm_compute in
+    match Note.open str k10_V k10_Bmsg k10_vs with
+    | Note.Ok n => match parse_tree (n_text n) with Index.Ok t => t | _ => Tree 0 [] end
+    | Note.Err _ => Tree 0 []
+    end.
+
+Lemma k10_facts :
+  fst (fst (fst (fst k10_rf))) = k10_rs /\ snd k10_rf = k10_log /\
+  c_init (snd (fst k10_rf) 0%nat) = Some None /\
+  c_latest (snd (fst k10_rf) 0%nat) = k10_A /\ c_latest_msg (snd (fst k10_rf) 0%nat) = k10_Amsg /\
+  cfg_msg k10_name (snd (fst (fst k10_rf))) = Some k10_Bmsg /\
+  w_interf (snd (fst (fst k10_rf))) = [] /\
+  fst (tree_hash_st node_hash_sha (c_latest (snd (fst k10_rf) 0%nat)) 5
+         (mkState (snd (fst (fst k10_rf))) (snd (fst k10_rf) 0%nat) [])) = TOk k10_h5.
+Proof.
+  pose proof k10_obs_eq as H. unfold k10_obs, k10_nf in H.
+  pose proof (f_equal (fun t => match t with (a, _, _, _, _, _, _, _) => a end) H) as H1.
+  pose proof (f_equal (fun t => match t with (_, a, _, _, _, _, _, _) => a end) H) as H2.
+  pose proof (f_equal (fun t => match t with (_, _, a, _, _, _, _, _) => a end) H) as H3.
+  pose proof (f_equal (fun t => match t with (_, _, _, a, _, _, _, _) => a end) H) as H4.
+  pose proof (f_equal (fun t => match t with (_, _, _, _, a, _, _, _) => a end) H) as H5.
+  pose proof (f_equal (fun t => match t with (_, _, _, _, _, a, _, _) => a end) H) as H6.
+  pose proof (f_equal (fun t => match t with (_, _, _, _, _, _, a, _) => a end) H) as H7.
+  pose proof (f_equal (fun t => match t with (_, _, _, _, _, _, _, a) => a end) H) as H8.
+  clear H. lazy beta iota in H1, H2, H3, H4, H5, H6, H7, H8.
+  split; [exact H1|]. split; [exact H2|]. split; [exact H3|]. split; [exact H4|]. split; [exact H5|].
+  split; [exact H6|]. split; [exact H7 | exact H8].
+Qed.
+
+Lemma k10_A_signed : signed_tree k10_V k10_vs k10_Amsg k10_A.
+Proof. unfold signed_tree. eexists. split; vm_compute; reflexivity. Qed.
+
+Lemma k10_B_signed : signed_tree k10_V k10_vs k10_Bmsg k10_B.
+Proof. unfold signed_tree. eexists. split; vm_compute; reflexivity. Qed.
+
+Lemma k10_signed_small : forall msg t, signed_tree k10_V k10_vs msg t -> Codec.tN t < 2 ^ 62.
+Proof. apply vtable_signed_small. vm_compute. reflexivity. Qed.
+
+Lemma k10_key_ok : key_ok sha256 k10_vs k10_name k10_w.
+Proof.
+  unfold key_ok. intros k nm h key Hk Hp.
+  vm_compute in Hk. injection Hk as <-. vm_compute in Hp. injection Hp as <- <- <-.
+  split; vm_compute; reflexivity.
+Qed.
+
+Lemma k10_fresh : forall i, c_init (k10_cs i) = None.
+Proof. reflexivity. Qed.
+
+Lemma k10_client_inv : forall i, ClientInv record_hash k10_V (NodeAt node_hash_sha) k10_vs k10_name (k10_cs i).
+Proof. intros i. unfold ClientInv, Fresh, k10_cs, new_client. cbn. repeat split; vm_compute; congruence. Qed.
+
+(* ---- the refutation ---------------------------------------------------------------------------- *)
+
+Notation k10_accepted :=
+  (accepted sha256 record_hash node_hash_sha k10_V esc_path_i esc_vers_i (fun _ => false) k10_vs k10_name k10_steps k10_w k10_cs).
+Notation k10_run_clean :=
+  (run_clean sha256 record_hash node_hash_sha k10_V esc_path_i esc_vers_i (fun _ => false) k10_steps k10_w k10_cs).
+
+Lemma k10_rf_fst : fst k10_rf = k10_run.
+Proof. apply run_full_fst. Qed.
+
+(* the third lookup fails with ErrSecurity and moves client 0's head from size 1 to size 6 *)
+Lemma k10_not_clean : ~ k10_run_clean.
+Proof.
+  intros H. apply run_full_clean in H.
+  destruct k10_facts as (_ & F2 & _). rewrite F2 in H. unfold k10_log in H.
+  inversion H as [|x1 l1 _ H1]; subst. inversion H1 as [|x2 l2 _ H2]; subst.
+  inversion H2 as [|x3 l3 H3 _]; subst. cbn in H3. destruct H3 as [H3|H3]; [|discriminate].
+  eapply H3. reflexivity.
+Qed.
+
+Theorem k10_refutation :
+  (forall msg t, signed_tree k10_V k10_vs msg t -> Codec.tN t < 2 ^ 62) /\
+  (forall i, ClientInv record_hash k10_V (NodeAt node_hash_sha) k10_vs k10_name (k10_cs i)) /\
+  (forall i, c_init (k10_cs i) = None) /\
+  key_ok sha256 k10_vs k10_name k10_w /\ w_interf k10_w = [] /\
+  AllBefore node_hash_sha k10_V k10_vs k10_name k10_w k10_cs /\
+  fst (fst (fst k10_run)) = k10_rs /\
+  k10_accepted k10_A /\ k10_accepted k10_B /\
+  (Comparable node_hash_sha k10_A k10_B -> coll node_hash_sha) /\
+  ~ k10_run_clean.
+Proof.
+  split; [exact k10_signed_small|]. split; [exact k10_client_inv|]. split; [exact k10_fresh|].
+  split; [exact k10_key_ok|]. split; [reflexivity|].
+  split; [apply fresh_all_before; exact k10_fresh|].
+  destruct k10_facts as (F1 & _ & F3 & F4 & F5 & F6 & F7 & F8).
+  rewrite k10_rf_fst in F1, F3, F4, F5, F6, F7, F8.
+  destruct k10_run as [[[rs evs] w'] cs'] eqn:Er. cbn [fst snd] in *.
+  split; [exact F1|].
+  pose proof (run_states_last _ _ _ _ _ _ _ _ _ _ _ _ _ _ Er) as Hlast.
+  assert (HA : k10_accepted k10_A).
+  { exists (w', cs'). split; [exact Hlast|]. split; [vm_compute; reflexivity|].
+    left. exists 0%nat. split; [exact F3 | exact F4]. }
+  assert (HB : k10_accepted k10_B).
+  { exists (w', cs'). split; [exact Hlast|]. split; [vm_compute; reflexivity|].
+    right. exists k10_Bmsg. split; [exact F6 | exact k10_B_signed]. }
+  split; [exact HA|]. split; [exact HB|]. split; [|exact k10_not_clean].
+  (* comparable only through a collision *)
+  intros [[E|[Hlt _]]|[E|[_ Hc]]].
+  - apply (f_equal Codec.tN) in E. vm_compute in E. discriminate.
+  - vm_compute in Hlt. discriminate.
+  - apply (f_equal Codec.tN) in E. vm_compute in E. discriminate.
+  - (* Consistent B A: but the authenticated tiles of A fold to another hash for size 5 *)
+    destruct (run_safe_c10 sha256 record_hash node_hash_sha k10_V esc_path_i esc_vers_i (fun _ => false)
+                k10_vs k10_name k10_signed_small _ _ _ _ _ _ _ k10_client_inv k10_key_ok Er) as (Hinv' & _ & _).
+    assert (HI0 : CInv record_hash k10_V (NodeAt node_hash_sha) k10_vs k10_name (cs' 0%nat)).
+    { specialize (Hinv' 0%nat). unfold ClientInv in Hinv'. rewrite F3 in Hinv'. exact Hinv'. }
+    destruct (tree_hash_st node_hash_sha (c_latest (cs' 0%nat)) 5 (mkState w' (cs' 0%nat) [])) as [r s''] eqn:Et.
+    cbn [fst] in F8. subst r.
+    assert (Hpre : hash_of_prefix node_hash_sha (NodeAt node_hash_sha) k10_A 5 k10_h5).
+    { rewrite F4 in Et.
+      eapply (tree_hash_st_safe sha256 record_hash node_hash_sha k10_V esc_path_i esc_vers_i (fun _ => false)
+                (NodeAt node_hash_sha) (tile_ok node_hash_sha) (c10_tiles_sound node_hash_sha)
+                (c10_saved_authenticated node_hash_sha) k10_vs k10_name k10_A k10_Amsg 5 (mkState w' (cs' 0%nat) []) _ _ HI0) in Et.
+      - destruct Et as (_ & _ & Hh). apply Hh. reflexivity.
+      - vm_compute. split; discriminate.
+      - vm_compute. reflexivity.
+      - right. exact k10_A_signed. }
+    unfold Consistent in Hc. replace (Codec.tN k10_B) with 5 in Hc by (vm_compute; reflexivity).
+    destruct (prefix_hash_unique node_hash_sha k10_A 5 _ _ Hc Hpre ltac:(vm_compute; split; [reflexivity | discriminate])) as [E|C];
+      [|exact C].
+    exfalso. vm_compute in E. discriminate.
+Qed.
+
+(* the same, packaged: every hypothesis of installed_heads_totally_ordered except run_clean holds, two
+   accepted heads are comparable only through a collision of SHA-256, and run_clean fails *)
+Theorem installed_heads_totally_ordered_refuted :
+  exists (V : str -> str -> str -> bool) vs name steps w cs rs evs w' cs' A B,
+    (forall msg t, signed_tree V vs msg t -> Codec.tN t < 2 ^ 62) /\
+    (forall i, ClientInv record_hash V (NodeAt node_hash_sha) vs name (cs i)) /\
+    (forall i, c_init (cs i) = None) /\
+    key_ok sha256 vs name w /\ w_interf w = [] /\
+    AllBefore node_hash_sha V vs name w cs /\
+    run sha256 record_hash node_hash_sha V esc_path_i esc_vers_i (fun _ => false) steps w cs = (rs, evs, w', cs') /\
+    (exists l0 l1 l3, rs = [LOk l0; LOk l1; LErr ESecurity; LOk l3] /\ l3 <> []) /\
+    accepted sha256 record_hash node_hash_sha V esc_path_i esc_vers_i (fun _ => false) vs name steps w cs A /\
+    accepted sha256 record_hash node_hash_sha V esc_path_i esc_vers_i (fun _ => false) vs name steps w cs B /\
+    (Comparable node_hash_sha A B -> coll node_hash_sha) /\
+    ~ run_clean sha256 record_hash node_hash_sha V esc_path_i esc_vers_i (fun _ => false) steps w cs.
+Proof.
+  destruct k10_refutation as (H1 & H2 & H3 & H4 & H5 & H6 & H7 & H8 & H9 & H10 & H11).
+  destruct k10_run as [[[rs evs] w'] cs'] eqn:Er. cbn [fst] in H7.
+  exists k10_V, k10_vs, k10_name, k10_steps, k10_w, k10_cs, rs, evs, w', cs', k10_A, k10_B.
+  repeat (split; [assumption|]).
+  split; [|auto].
+  rewrite H7. unfold k10_rs. do 3 eexists. split; [reflexivity | discriminate].
+Qed.
